@@ -1,1 +1,356 @@
-//! C01 harnesses (not written yet).
+//! C01 — add, subtract and multiply wrap modulo 2^len for every operand pairing.
+//!
+//! Oracle: raw storage of the result == (val(a) op val(b)) mod 2^len(a), length unchanged,
+//! right operand untouched. Because the comparison is on *all* storage bits, garbage written
+//! beyond len (padding or spare words) is a failure even though get() cannot see it.
+use crate::big::{m128, Big};
+use crate::nd;
+use crate::scopes::*;
+use bva::{Bit, BitVector, Bv, Bvd, Bvf};
+
+macro_rules! addsub_witnesses {
+    ($ra:ident, $rb:ident) => {
+        w!($rb.len > $ra.len && !$rb.v.fits($ra.len), "rhs longer than lhs with a set bit at index >= len(lhs)");
+        w!($ra.len == 0, "empty lhs");
+        w!($rb.len == 0 || $rb.v.is_zero(), "empty or zero rhs");
+    };
+}
+
+/// `Bvf` left operand: `+` and `-` (symbolic choice), `&a op &b` and `a op= &b`.
+macro_rules! h_addsub_all {
+    ($name:ident, $unw:literal, $a:expr, $b:expr) => {
+        harness!($name, $unw, {
+            let (a, ra) = $a;
+            let (b, rb) = $b;
+            let n = ra.len;
+            addsub_witnesses!(ra, rb);
+            let sub = nd::bool();
+            let mut a2 = a.clone();
+            let (r, want) = if sub {
+                a2 -= &b;
+                (&a - &b, ra.v.sub(rb.v).trunc(n))
+            } else {
+                a2 += &b;
+                (&a + &b, ra.v.add(rb.v).trunc(n))
+            };
+            w!(!sub && n > 8 && want.is_zero() && !ra.v.is_zero() && rb.v.trunc(n) == Big::ONE,
+               "a + 1 wraps to zero: the carry ripples through every word");
+            w!(sub && n > 8 && ra.v.is_zero() && rb.v.trunc(n) == Big::ONE,
+               "0 - 1: the borrow ripples through every word");
+            let rr = r.into_raw();
+            let r2 = a2.into_raw();
+            assert!(rr.len == n, "C01: result length differs from lhs length");
+            assert!(rr.v == want, "C01: result storage != (a +/- b) mod 2^len(a)");
+            assert!(r2.len == n && r2.v == want, "C01: op-assign storage != (a +/- b) mod 2^len(a)");
+            assert!(a.into_raw() == ra, "C01: lhs of &a op &b modified");
+            assert!(b.into_raw() == rb, "C01: rhs modified");
+        });
+    };
+}
+
+/// Heap-backed left operand: one operator, assign form.
+macro_rules! h_addsub_assign {
+    ($name:ident, $unw:literal, $a:expr, $b:expr, $op:tt, $model:ident) => {
+        harness!($name, $unw, {
+            let (mut a, ra) = $a;
+            let (b, rb) = $b;
+            let n = ra.len;
+            addsub_witnesses!(ra, rb);
+            w!(ra.cap >= n + 64 && n > 0, "lhs has a spare storage word");
+            let want = ra.v.$model(rb.v).trunc(n);
+            w!(n > 64 && (want.is_zero() || want == Big::mask(n)) && rb.v.trunc(n) == Big::ONE,
+               "carry/borrow of +/- 1 ripples through every word");
+            a $op &b;
+            let r = a.into_raw();
+            assert!(r.len == n, "C01: result length differs from lhs length");
+            assert!(r.v == want, "C01: op-assign storage != (a +/- b) mod 2^len(a)");
+            assert!(r.len <= r.cap, "C01: len > capacity");
+            assert!(b.into_raw() == rb, "C01: rhs modified");
+        });
+    };
+}
+
+/// Heap-backed left operand: by-reference form (clones the lhs).
+macro_rules! h_addsub_ref {
+    ($name:ident, $unw:literal, $a:expr, $b:expr, $op:tt, $model:ident) => {
+        harness!($name, $unw, {
+            let (a, ra) = $a;
+            let (b, rb) = $b;
+            let n = ra.len;
+            addsub_witnesses!(ra, rb);
+            let r = ((&a) $op (&b)).into_raw();
+            assert!(r.len == n, "C01: result length differs from lhs length");
+            assert!(r.v == ra.v.$model(rb.v).trunc(n), "C01: result storage != (a +/- b) mod 2^len(a)");
+            assert!(r.len <= r.cap, "C01: len > capacity");
+            assert!(a.into_raw() == ra, "C01: lhs of &a op &b modified");
+            assert!(b.into_raw() == rb, "C01: rhs modified");
+        });
+    };
+}
+
+// ---- Bvf + / - ---------------------------------------------------------------------------
+h_addsub_all!(c01_q_addsub_f8x2_f8x1, 4, f8x2(anylen(16)), f8x1(anylen(8)));
+h_addsub_all!(c01_q_addsub_f8x2_f8x2, 4, f8x2(anylen(16)), f8x2(anylen(16)));
+h_addsub_all!(c01_q_addsub_f8x2_f8x3, 4, f8x2(anylen(16)), f8x3(anylen(24)));
+h_addsub_all!(c01_q_addsub_f8x3_f8x2_pb, 5, f8x3(anylen(24)), f8x2(anylen(16)));
+h_addsub_all!(c01_q_addsub_f8x3_f8x3, 5, f8x3(anylen(24)), f8x3(anylen(24)));
+h_addsub_all!(c01_q_addsub_f8x2_f16x1, 4, f8x2(anylen(16)), f16x1(anylen(16)));
+h_addsub_all!(c01_q_addsub_f8x2_f16x2, 4, f8x2(anylen(16)), f16x2(anylen(32)));
+h_addsub_all!(c01_q_addsub_f16x2_f8x3, 4, f16x2(anylen(32)), f8x3(anylen(24)));
+h_addsub_all!(c01_q_addsub_f16x2_f16x2, 4, f16x2(anylen(32)), f16x2(anylen(32)));
+h_addsub_all!(c01_q_addsub_f32x2_f32x2, 4, f32x2(anylen(64)), f32x2(anylen(64)));
+h_addsub_all!(c01_q_addsub_fuszx2_fuszx2, 4, fuszx2(anylen(128)), fuszx2(anylen(128)));
+h_addsub_all!(c01_q_addsub_f128x2_f128x2, 4, f128x2(anylen(256)), f128x2(anylen(256)));
+h_addsub_all!(c01_q_addsub_f64x2_f64x2_pb, 4, f64x2(anylen(128)), f64x2(anylen(128)));
+h_addsub_all!(c01_q_addsub_f64x2_f64x3, 4, f64x2(anylen(128)), f64x3(anylen(192)));
+h_addsub_all!(c01_q_addsub_f64x3_f64x2, 5, f64x3(anylen(192)), f64x2(anylen(128)));
+h_addsub_all!(c01_q_addsub_f64x2_f8x3, 9, f64x2(anylen(128)), f8x3(anylen(24)));
+h_addsub_all!(c01_t_addsub_f64x3_f128x2, 5, f64x3(anylen(192)), f128x2(anylen(256)));
+h_addsub_all!(c01_t_addsub_f128x2_f64x3, 4, f128x2(anylen(256)), f64x3(anylen(192)));
+h_addsub_all!(c01_t_addsub_f32x2_f16x2, 4, f32x2(anylen(64)), f16x2(anylen(32)));
+h_addsub_all!(c01_q_addsub_f8x2_bvd1, 4, f8x2(anylen(16)), bvd1(anylen(64)));
+h_addsub_all!(c01_q_addsub_f64x2_bvd3, 4, f64x2(anylen(128)), bvd3(anylen(192)));
+h_addsub_all!(c01_q_addsub_f8x2_bvfix, 4, f8x2(anylen(16)), bvfix(anylen(128)));
+h_addsub_all!(c01_q_addsub_f64x2_bvdyn3, 4, f64x2(anylen(128)), bvdyn3(anylen(192)));
+h_addsub_all!(c01_q_addsub_f8x2_u8, 4, f8x2(anylen(16)), iu8());
+h_addsub_all!(c01_q_addsub_f8x2_u16, 4, f8x2(anylen(16)), iu16());
+h_addsub_all!(c01_q_addsub_f8x2_u32, 4, f8x2(anylen(16)), iu32());
+h_addsub_all!(c01_q_addsub_f8x2_u64, 4, f8x2(anylen(16)), iu64());
+h_addsub_all!(c01_q_addsub_f8x2_u128, 4, f8x2(anylen(16)), iu128());
+h_addsub_all!(c01_q_addsub_f8x2_usize, 4, f8x2(anylen(16)), iusize());
+h_addsub_all!(c01_q_addsub_f64x2_u128, 4, f64x2(anylen(128)), iu128());
+h_addsub_all!(c01_t_addsub_f16x2_u64, 4, f16x2(anylen(32)), iu64());
+h_addsub_all!(c01_t_addsub_f8x3_u128, 5, f8x3(anylen(24)), iu128());
+
+// ---- Bvd + / - (2 allocated words: a spare word whenever len <= 64) ------------------------
+h_addsub_assign!(c01_q_add_bvd2_bvd3, 4, bvd2(anylen(128)), bvd3(anylen(192)), +=, add);
+h_addsub_assign!(c01_q_sub_bvd2_bvd3, 4, bvd2(anylen(128)), bvd3(anylen(192)), -=, sub);
+h_addsub_assign!(c01_q_add_bvd2_f64x3, 4, bvd2(anylen(128)), f64x3(anylen(192)), +=, add);
+h_addsub_assign!(c01_q_sub_bvd2_f64x3, 4, bvd2(anylen(128)), f64x3(anylen(192)), -=, sub);
+h_addsub_assign!(c01_q_add_bvd2_f8x3, 9, bvd2(anylen(128)), f8x3(anylen(24)), +=, add);
+h_addsub_assign!(c01_q_sub_bvd2_f8x3, 9, bvd2(anylen(128)), f8x3(anylen(24)), -=, sub);
+h_addsub_assign!(c01_q_add_bvd2_f16x2, 5, bvd2(anylen(128)), f16x2(anylen(32)), +=, add);
+h_addsub_assign!(c01_q_add_bvd2_u128, 4, bvd2(anylen(128)), iu128(), +=, add);
+h_addsub_assign!(c01_q_sub_bvd2_u64, 4, bvd2(anylen(128)), iu64(), -=, sub);
+h_addsub_assign!(c01_q_sub_bvd2_u8, 9, bvd2(anylen(128)), iu8(), -=, sub);
+h_addsub_assign!(c01_t_add_bvd3_bvd2, 5, bvd3(anylen(192)), bvd2(anylen(128)), +=, add);
+h_addsub_assign!(c01_t_sub_bvd3_bvd2, 5, bvd3(anylen(192)), bvd2(anylen(128)), -=, sub);
+h_addsub_assign!(c01_t_add_bvd3_bvd3, 5, bvd3(anylen(192)), bvd3(anylen(192)), +=, add);
+h_addsub_assign!(c01_t_sub_bvd3_f64x3, 5, bvd3(anylen(192)), f64x3(anylen(192)), -=, sub);
+h_addsub_assign!(c01_t_add_bvd3_f128x2, 5, bvd3(anylen(192)), f128x2(anylen(256)), +=, add);
+h_addsub_assign!(c01_t_sub_bvd1_bvd2, 4, bvd1(anylen(64)), bvd2(anylen(128)), -=, sub);
+h_addsub_assign!(c01_t_add_bvd1_u16, 5, bvd1(anylen(64)), iu16(), +=, add);
+h_addsub_assign!(c01_t_sub_bvd1_u32, 4, bvd1(anylen(64)), iu32(), -=, sub);
+h_addsub_assign!(c01_t_add_bvd1_usize, 4, bvd1(anylen(64)), iusize(), +=, add);
+h_addsub_ref!(c01_q_refadd_bvd2_bvd3, 4, bvd2(anylen(128)), bvd3(anylen(192)), +, add);
+h_addsub_ref!(c01_t_refsub_bvd2_f64x3, 4, bvd2(anylen(128)), f64x3(anylen(192)), -, sub);
+h_addsub_ref!(c01_t_refsub_bvd2_u128, 4, bvd2(anylen(128)), iu128(), -, sub);
+
+// ---- Bv + / -, each storage mode ----------------------------------------------------------
+h_addsub_assign!(c01_q_add_bvfix_bvdyn3, 4, bvfix(anylen(128)), bvdyn3(anylen(192)), +=, add);
+h_addsub_assign!(c01_q_sub_bvfix_bvfix, 4, bvfix(anylen(128)), bvfix(anylen(128)), -=, sub);
+h_addsub_assign!(c01_q_add_bvfix_f64x3, 4, bvfix(anylen(128)), f64x3(anylen(192)), +=, add);
+h_addsub_assign!(c01_q_sub_bvfix_bvd3, 4, bvfix(anylen(128)), bvd3(anylen(192)), -=, sub);
+h_addsub_assign!(c01_q_add_bvdyn2_bvdyn3, 4, bvdyn2(anylen(128)), bvdyn3(anylen(192)), +=, add);
+h_addsub_assign!(c01_q_sub_bvdyn2_bvfix, 4, bvdyn2(anylen(128)), bvfix(anylen(128)), -=, sub);
+h_addsub_assign!(c01_q_sub_bvdyn2_f64x3, 4, bvdyn2(anylen(128)), f64x3(anylen(192)), -=, sub);
+h_addsub_assign!(c01_t_add_bvdyn2_bvd3, 4, bvdyn2(anylen(128)), bvd3(anylen(192)), +=, add);
+h_addsub_assign!(c01_t_add_bvdyn2_f8x3, 9, bvdyn2(anylen(128)), f8x3(anylen(24)), +=, add);
+h_addsub_assign!(c01_q_add_bvfix_u128, 4, bvfix(anylen(128)), iu128(), +=, add);
+h_addsub_assign!(c01_q_sub_bvdyn2_u128, 4, bvdyn2(anylen(128)), iu128(), -=, sub);
+h_addsub_ref!(c01_t_refadd_bvfix_bvdyn3, 4, bvfix(anylen(128)), bvdyn3(anylen(192)), +, add);
+h_addsub_ref!(c01_t_refsub_bvdyn2_bvdyn3, 4, bvdyn2(anylen(128)), bvdyn3(anylen(192)), -, sub);
+
+// =========================================================================================
+// Multiplication
+// =========================================================================================
+
+/// 8-bit subject: compare with the native `u8` product, all values, all lengths.
+macro_rules! h_mul8 {
+    ($name:ident, $unw:literal, $b:expr) => {
+        harness!($name, $unw, {
+            let (a, ra) = f8x1(anylen(8));
+            let (b, rb) = $b;
+            let n = ra.len;
+            let m = m128(n) as u8;
+            let want = (ra.v.lo as u8).wrapping_mul(rb.v.lo as u8) & m;
+            w!(n == 8 && (ra.v.lo as u16) * ((rb.v.lo as u8) as u16) > 255, "product overflows 8 bits");
+            w!(n > 0 && n < 8 && want != 0, "partial word, non-zero product");
+            w!(n == 0, "empty lhs");
+            let r = (&a * &b).into_raw();
+            assert!(r.len == n, "C01: product length differs from lhs length");
+            assert!(r.v == Big::lo(want as u128), "C01: product storage != (a * b) mod 2^len(a)");
+            let mut a2 = a;
+            a2 *= &b;
+            assert!(a2.into_raw() == r, "C01: *= differs from *");
+            assert!(b.into_raw() == rb, "C01: rhs modified");
+        });
+    };
+}
+
+h_mul8!(c01_q_mul_f8x1_f8x1, 3, f8x1(anylen(8)));
+h_mul8!(c01_q_mul_f8x1_f8x2, 3, f8x2(anylen(16)));
+h_mul8!(c01_q_mul_f8x1_f16x1, 3, f16x1(anylen(16)));
+h_mul8!(c01_q_mul_f8x1_bvd1, 3, bvd1(anylen(64)));
+h_mul8!(c01_q_mul_f8x1_bvfix, 3, bvfix(anylen(128)));
+h_mul8!(c01_q_mul_f8x1_u8, 3, iu8());
+h_mul8!(c01_q_mul_f8x1_u16, 3, iu16());
+h_mul8!(c01_q_mul_f8x1_u32, 3, iu32());
+h_mul8!(c01_q_mul_f8x1_u64, 3, iu64());
+h_mul8!(c01_q_mul_f8x1_u128, 3, iu128());
+h_mul8!(c01_q_mul_f8x1_usize, 3, iusize());
+
+/// Limb-level reference model of the low three bytes of a product (schoolbook on bytes with
+/// native widening multiplication), loop-free.
+#[inline(always)]
+fn mulref24(a: u32, b: u32) -> u32 {
+    let (a0, a1, a2) = (a & 0xff, (a >> 8) & 0xff, (a >> 16) & 0xff);
+    let (b0, b1, b2) = (b & 0xff, (b >> 8) & 0xff, (b >> 16) & 0xff);
+    let c0 = a0 * b0;
+    let c1 = a0 * b1 + a1 * b0;
+    let c2 = a0 * b2 + a1 * b1 + a2 * b0;
+    (c0.wrapping_add(c1 << 8).wrapping_add(c2 << 16)) & 0x00ff_ffff
+}
+
+/// The reference model equals native multiplication (validates the oracle; no bva code).
+harness!(c01_t_mulref_is_native_mul, 2, {
+    let a = nd::u32() & 0x00ff_ffff;
+    let b = nd::u32() & 0x00ff_ffff;
+    w!(a > 0xffff && b > 0xffff, "both factors use the third byte");
+    assert!(mulref24(a, b) == a.wrapping_mul(b) & 0x00ff_ffff, "HARNESS: limb reference model differs from native product");
+});
+
+/// Multi-byte subjects against the limb-level reference model.
+macro_rules! h_mul_limb {
+    ($name:ident, $unw:literal, $a:expr, $b:expr) => {
+        harness!($name, $unw, {
+            let (a, ra) = $a;
+            let (b, rb) = $b;
+            let n = ra.len;
+            let want = mulref24(ra.v.lo as u32, rb.v.lo as u32) & (m128(n) as u32);
+            w!(n >= 16 && (ra.v.lo >> 8) != 0 && ((rb.v.lo >> 8) & 0xff) != 0, "both factors have a non-zero second byte");
+            w!(n % 8 != 0 && want >> 8 != 0, "partial top word, product spills into it");
+            w!(rb.len > n && !rb.v.fits(n), "rhs longer than lhs with a set bit at index >= len(lhs)");
+            let r = (&a * &b).into_raw();
+            assert!(r.len == n, "C01: product length differs from lhs length");
+            assert!(r.v == Big::lo(want as u128), "C01: product storage != (a * b) mod 2^len(a)");
+            assert!(b.into_raw() == rb, "C01: rhs modified");
+        });
+    };
+}
+
+h_mul_limb!(c01_q_mul_f8x2_f8x2, 4, f8x2(anylen(16)), f8x2(anylen(16)));
+h_mul_limb!(c01_q_mul_f8x2_f8x3, 4, f8x2(anylen(16)), f8x3(anylen(24)));
+h_mul_limb!(c01_q_mul_f8x2_f16x1, 4, f8x2(anylen(16)), f16x1(anylen(16)));
+h_mul_limb!(c01_t_mul_f8x3_f8x3, 5, f8x3(anylen(24)), f8x3(anylen(24)));
+h_mul_limb!(c01_t_mul_f8x2_bvd1, 4, f8x2(anylen(16)), bvd1(anylen(64)));
+h_mul_limb!(c01_t_mul_f8x2_u32, 4, f8x2(anylen(16)), iu32());
+
+/// Vectors over 64-bit words with few *structurally* symbolic bits, so that the bit-blasted
+/// 64x64 multipliers collapse to a handful of shifted additions (a full-width symbolic
+/// 64-bit multiplication does not finish: measured > 15 min for one harness).
+/// `small`: value below 2^8. `sparse`: symbolic bytes at bits 0..8, 56..64 (just below the
+/// word boundary) and 64..72 (just above it); everything else constant zero.
+/// `sparsetop` (for *concrete* lengths only): additionally a symbolic byte just below `len`,
+/// so that products do wrap modulo 2^len.
+#[inline(always)]
+fn small_w(_len: usize) -> (u64, u64) {
+    (nd::u8() as u64, 0)
+}
+#[inline(always)]
+fn sparse_w(_len: usize) -> (u64, u64) {
+    ((nd::u8() as u64) | (nd::u8() as u64) << 56, nd::u8() as u64)
+}
+#[inline(always)]
+fn sparsetop_w(len: usize) -> (u64, u64) {
+    let (w0, w1) = sparse_w(len);
+    let t = if len >= 8 { (nd::u8() as u128) << (len - 8) } else { 0 };
+    (w0 | t as u64, w1 | (t >> 64) as u64)
+}
+macro_rules! gen_few {
+    ($f64x2:ident, $bvd2:ident, $bvfix:ident, $bvdyn2:ident, $w:ident) => {
+        #[inline(always)]
+        fn $f64x2(len: usize) -> (Bvf<u64, 2>, RawV) {
+            nd::assume(len <= 128);
+            let (x0, x1) = $w(len);
+            let w0 = x0 & crate::big::m64(len);
+            let w1 = x1 & crate::big::m64(if len > 64 { len - 64 } else { 0 });
+            (Bvf::new([w0, w1], len), RawV { len, v: Big::limbs(w0, w1, 0, 0), cap: 128 })
+        }
+        #[inline(always)]
+        fn $bvd2(len: usize) -> (Bvd, RawV) {
+            nd::assume(len <= 128);
+            let (x0, x1) = $w(len);
+            let w0 = x0 & crate::big::m64(len);
+            let w1 = x1 & crate::big::m64(if len > 64 { len - 64 } else { 0 });
+            (
+                Bvd::new(Box::new([w0, w1]) as Box<[u64]>, len),
+                RawV { len, v: Big::limbs(w0, w1, 0, 0), cap: 128 },
+            )
+        }
+        #[inline(always)]
+        fn $bvfix(len: usize) -> (Bv, RawV) {
+            let (b, r) = $f64x2(len);
+            (Bv::Fixed(b), r)
+        }
+        #[inline(always)]
+        fn $bvdyn2(len: usize) -> (Bv, RawV) {
+            let (b, r) = $bvd2(len);
+            (Bv::Dynamic(b), r)
+        }
+    };
+}
+#[inline(always)]
+fn sparse_bvd1(len: usize) -> (Bvd, RawV) {
+    nd::assume(len <= 64);
+    let w0 = ((nd::u8() as u64) | (nd::u8() as u64) << 56) & crate::big::m64(len);
+    (Bvd::new(Box::new([w0]) as Box<[u64]>, len), RawV { len, v: Big::lo(w0 as u128), cap: 64 })
+}
+gen_few!(small_f64x2, small_bvd2, small_bvfix, small_bvdyn2, small_w);
+gen_few!(sparse_f64x2, sparse_bvd2, sparse_bvfix, sparse_bvdyn2, sparse_w);
+gen_few!(sparsetop_f64x2, sparsetop_bvd2, sparsetop_bvfix, sparsetop_bvdyn2, sparsetop_w);
+
+/// 64-bit-word subjects with one factor below 2^8: exercises the carry propagation between
+/// limbs and the final mask (the 64x64 partial products themselves are the business of the
+/// word-primitive obligations). len <= 128 so the oracle is a native u128 product.
+macro_rules! h_mul_small {
+    ($name:ident, $unw:literal, $a:expr, $b:expr) => {
+        harness!($name, $unw, {
+            let (a, ra) = $a;
+            let (b, rb) = $b;
+            let n = ra.len;
+            nd::assume(n <= 128);
+            let want = ra.v.lo.wrapping_mul(rb.v.lo) & m128(n);
+            w!(n <= 64 || (want >> 64 != 0 && (ra.v.lo >> 64 == 0 || rb.v.lo >> 64 == 0)), "single word, or the product carries from the low word into the high word");
+            w!(n > 0 && ra.v.lo.checked_mul(rb.v.lo).map_or(true, |p| p > m128(n)), "product wraps modulo 2^len");
+            let r = (&a * &b).into_raw();
+            assert!(r.len == n, "C01: product length differs from lhs length");
+            assert!(r.v == Big::lo(want), "C01: product storage != (a * b) mod 2^len(a)");
+            assert!(b.into_raw() == rb, "C01: rhs modified");
+        });
+    };
+}
+
+// Symbolic length with 64-bit words costs 5-7 minutes per harness: thorough tier. The quick
+// tier uses concrete lengths around the word boundary (contents symbolic).
+h_mul_small!(c01_t_mul_f64x2_smallrhs, 4, sparse_f64x2(anylen(128)), small_f64x2(anylen(128)));
+h_mul_small!(c01_t_mul_f64x2_smalllhs, 4, small_f64x2(anylen(128)), sparse_f64x2(anylen(128)));
+h_mul_small!(c01_t_mul_f64x2_u8, 4, sparse_f64x2(anylen(128)), iu8());
+h_mul_small!(c01_t_mul_bvfix_smallrhs, 4, sparse_bvfix(anylen(128)), small_bvfix(anylen(128)));
+h_mul_small!(c01_t_mul_f64x2_bvd2_smallrhs, 4, sparse_f64x2(anylen(128)), small_bvd2(anylen(128)));
+h_mul_small!(c01_q_mul_f64x2_l128_smallrhs, 4, sparsetop_f64x2(128), small_f64x2(anylen(128)));
+h_mul_small!(c01_q_mul_f64x2_l65_smallrhs, 4, sparsetop_f64x2(65), small_f64x2(anylen(128)));
+h_mul_small!(c01_q_mul_f64x2_l70_smalllhs, 4, small_f64x2(70), sparse_f64x2(anylen(128)));
+h_mul_small!(c01_q_mul_f64x2_l127_u8, 4, sparsetop_f64x2(127), iu8());
+h_mul_small!(c01_q_mul_bvfix_l128_bvdyn2, 4, sparsetop_bvfix(128), small_bvdyn2(anylen(128)));
+// Bvd multiplication allocates the result by length: concrete lengths only (a symbolic length
+// ran CBMC out of memory: stated as outside the claim).
+h_mul_small!(c01_q_mul_bvd2_l128_smallrhs, 4, sparsetop_bvd2(128), small_bvd2(anylen(128)));
+h_mul_small!(c01_q_mul_bvd2_l65_smalllhs, 4, small_bvd2(65), sparse_bvd2(anylen(128)));
+h_mul_small!(c01_q_mul_bvd2_l64_f64x2, 4, sparsetop_bvd2(64), small_f64x2(anylen(128)));
+h_mul_small!(c01_q_mul_bvd2_l100_u8, 9, sparsetop_bvd2(100), iu8());
+h_mul_small!(c01_q_mul_bvdyn2_l127_smallrhs, 4, sparsetop_bvdyn2(127), small_bvdyn2(anylen(128)));
+h_mul_small!(c01_t_mul_bvd2_l1_smallrhs, 4, sparsetop_bvd2(1), small_bvd2(anylen(128)));
+h_mul_small!(c01_t_mul_bvd2_l63_smallrhs, 4, sparsetop_bvd2(63), small_bvd2(anylen(128)));
+h_mul_small!(c01_t_mul_bvd2_l66_bvfix, 4, sparsetop_bvd2(66), small_bvfix(anylen(128)));
+h_mul_small!(c01_t_mul_bvd1_l64_smallrhs, 3, sparse_bvd1(64), small_bvd2(anylen(128)));
